@@ -41,7 +41,7 @@ class EIO(Engine):
                    'a mapped file is never truncated by another process (SIGBUS is outside every property)']
     expected_probes = ('write:chunk_boundary_crossed_partial_final_byte', 'write:fault_on_first_write',
                        'write:fault_on_last_write', 'write:torn', 'write:lazy_file_source',
-                       'read:window_ends_mid_byte', 'read:window_at_end', 'fromfile:short', 'roundtrip:ok', 'write:lsb0_mode')
+                       'read:window_ends_mid_byte', 'read:window_at_end', 'fromfile:short', 'roundtrip:ok', 'write:lsb0_mode', 'read:lsb0_mode')
     exhaustive = True
 
     # -------------------------------------------------------------------------------------------------
@@ -110,6 +110,8 @@ class EIO(Engine):
         elif desc['mode'] in ('read', 'fromfile'):
             cfg['data'] = bytes(g.int(0, 255) for _ in range(desc['size'])).hex()
             cfg['wseed'] = g.int(0, 2 ** 30)
+            # knob: an offset / length window is counted in storage order whatever the bit-numbering option says
+            cfg['lsb0'] = g.chance(0.3) if desc['mode'] == 'read' else False
         return cfg
 
     # -------------------------------------------------------------------------------------------------
@@ -125,6 +127,9 @@ class EIO(Engine):
         if mode == 'write' and cfg.get('lsb0'):
             self.B.options.lsb0 = True
             self.probe('write:lsb0_mode')
+        if mode == 'read' and cfg.get('lsb0'):
+            self.B.options.lsb0 = True
+            self.probe('read:lsb0_mode')
         if mode == 'write':
             self.obj = self._build_write_subject(cfg)
             self.bits = self._bin(self.obj)
